@@ -335,6 +335,21 @@ func cmdCheck(args []string) int {
 			Failed []string `json:"failed"`
 		}
 		if rerr != nil || json.Unmarshal(b, &co) != nil {
+			if res.timedOut {
+				// A regression program takes milliseconds to seconds; the whole corpus run has ten minutes.
+				// If it is still inside one program then, that program hangs (deadlock / lost wake-up).
+				file := ""
+				for _, l := range strings.Split(res.out, "\n") {
+					if i := strings.Index(l, "CORPUS-RUNNING file="); i >= 0 {
+						file = strings.TrimSpace(l[i+len("CORPUS-RUNNING file="):])
+					}
+				}
+				if file != "" {
+					fmt.Printf("violation: [hang] regression program %s did not finish within the time allowed for the whole corpus (10 min)\n", filepath.Base(file))
+					fmt.Printf("VIOLATION property=%s replay=%s\n", id, file)
+					return 1
+				}
+			}
 			if !res.timedOut && strings.Contains(res.out, repoPrefix) && (strings.Contains(res.out, "panic:") || strings.Contains(res.out, "fatal error:")) {
 				// the process died from a panic / fatal error with library frames (e.g. in the background
 				// writer, or a runtime lock error) while running a regression program: a violation on that program
